@@ -52,6 +52,8 @@ def shards(tier, seed):
     n = 6 if tier == "quick" else 12
     out = [{"kind": "ride", "part": i, "n": 600 if tier == "quick" else 4000,
             "deep": tier == "thorough"} for i in range(n)]
+    if tier == "quick":  # a small deep-mode (all internal calls) sample in the quick tier too
+        out += [{"kind": "ride", "part": 100 + i, "n": 150, "deep": True} for i in range(2)]
     out += [{"kind": "direct", "part": i, "n": 500 if tier == "quick" else 6000} for i in range(2)]
     out.append({"kind": "fault", "part": 0, "n": 40 if tier == "quick" else 400})
     out.append({"kind": "suite", "part": 0, "deep": tier == "thorough"})
@@ -81,8 +83,18 @@ class ImmutMonitor:
             if getattr(func, "__name__", "") == "copyto" or kwargs.get("out") is not None:
                 return None
         snaps = {}
+        count = code.co_argcount + code.co_kwonlyargcount
+        varkw = None
+        if code.co_flags & 0x08:
+            varkw = code.co_varnames[count + (1 if code.co_flags & 0x04 else 0)]
         for param, value in args.items():
             if param in EXEMPT_PARAMS or (short == "copyto" and param == "dst"):
+                continue
+            if param == varkw and isinstance(value, dict):
+                # the **kwargs dict itself is the callee's own object; its values are the caller's
+                for key, item in value.items():
+                    if key not in EXEMPT_PARAMS and isinstance(item, (numpy.ndarray, list, tuple, dict)):
+                        snaps[f"{param}[{key}]"] = (item, snapshot(item))
                 continue
             if isinstance(value, (numpy.ndarray, list, tuple, dict)):
                 snaps[param] = (value, snapshot(value))
